@@ -1613,7 +1613,7 @@ func (s *sim) finalChecks() {
 // checkRetained: after the hostile peers left (and a collection) the heap may have grown by the
 // node's own history only.
 func (s *sim) checkRetained() {
-	runtime.GC()
+	collect()
 	var m runtime.MemStats
 	runtime.ReadMemStats(&m)
 	grown := int64(m.HeapAlloc) - int64(s.memBase.HeapAlloc)
